@@ -59,6 +59,7 @@ type FuncContract struct {
 	LoopStep map[int][]*Clause // relations between loop head and back edge of one iteration
 	Asserts  []*Clause
 	Promises []*Clause
+	Snapshots []*Clause
 	NoInv    map[string]bool // invariants this function opts out of
 	NoPanic  bool            // default true; `maypanic` sets false
 	MayPanic bool
@@ -213,7 +214,7 @@ func stripComment(s string) string {
 	return s
 }
 
-var kwRe = regexp.MustCompile(`^\s*(group|func|extern|slot|requires|ensures|modifies|invariant|history|loop|ghostinit|ghost|pure|lemma|axiom|const|global|assert|mode|maypanic|noinv|use|callslot|trusted|bounded|pkg|end|implements|macro|promise|noreturn|local)\b`)
+var kwRe = regexp.MustCompile(`^\s*(group|func|extern|slot|requires|ensures|modifies|invariant|history|loop|ghostinit|ghost|pure|lemma|axiom|const|global|assert|mode|maypanic|noinv|use|callslot|trusted|bounded|pkg|end|implements|macro|promise|noreturn|local|snapshot)\b`)
 
 var labelRe = regexp.MustCompile(`^\s*([A-Za-z_][A-Za-z0-9_]*)\s*:\s*(.*)$`)
 var propsRe = regexp.MustCompile(`^\s*\[([A-Z0-9, ]+)\]\s*(.*)$`)
@@ -455,6 +456,25 @@ func (c *Contracts) LoadFile(path string) error {
 				props = cur.mergeProps
 			}
 			cur.Asserts = append(cur.Asserts, &Clause{Kind: "assert", Label: label, Props: props, Expr: e, Src: r, Where: l.where, At: at})
+		case "snapshot":
+			// snapshot <name>: at <callee>#n: expr   -- the value of expr just before that call, available
+			// to later call-site assertions of the same function as $<name>
+			if cur == nil {
+				return fail(l, "snapshot outside func")
+			}
+			{
+				label, r := splitLabel(rest)
+				if label == "" || !strings.HasPrefix(r, "at ") {
+					return fail(l, "snapshot name: at <callee>#n: expr")
+				}
+				i := strings.Index(r, ":")
+				at := strings.TrimSpace(r[3:i])
+				e, err := ParseCExpr(r[i+1:])
+				if err != nil {
+					return fail(l, "%v", err)
+				}
+				cur.Snapshots = append(cur.Snapshots, &Clause{Kind: "snapshot", Label: label, Expr: e, Src: r[i+1:], Where: l.where, At: at})
+			}
 		case "promise":
 			// promise [props] label: at <chan>: expr  -- holds at every send on the channel (checked in the
 			// goroutines started by this function), assumed after every receive from it in this function
@@ -558,14 +578,18 @@ func (c *Contracts) LoadFile(path string) error {
 					cur.LoopStep[n] = append(cur.LoopStep[n], cl)
 				}
 			case "increases", "decreases":
-				e, err := ParseCExpr(fs[2])
+				vprops, vr := splitProps(fs[2])
+				if vprops == nil {
+					vprops = cur.mergeProps
+				}
+				e, err := ParseCExpr(vr)
 				if err != nil {
 					return fail(l, "%v", err)
 				}
 				if cur.LoopVar == nil {
 					cur.LoopVar = map[int][]*Clause{}
 				}
-				cur.LoopVar[n] = append(cur.LoopVar[n], &Clause{Kind: fs[1], Label: fs[1], Props: cur.mergeProps, Expr: e, Src: fs[2], Loop: n, Where: l.where})
+				cur.LoopVar[n] = append(cur.LoopVar[n], &Clause{Kind: fs[1], Label: fs[1], Props: vprops, Expr: e, Src: vr, Loop: n, Where: l.where})
 			default:
 				return fail(l, "unknown loop clause %q", fs[1])
 			}
